@@ -90,7 +90,10 @@ class UnusedTranslator:
                 ASTType.Aggregate,
             ):
                 for elem in stm.head.elements:
-                    self._add_usage(elem.condition)
+                    if stm.head.ast_type == ASTType.HeadAggregate:
+                        self._add_usage_stm(elem.condition)
+                    else:
+                        self._add_usage(elem.condition)
             if stm.ast_type == ASTType.Rule and stm.head.ast_type in (
                 ASTType.Disjunction,
                 ASTType.Aggregate,
